@@ -104,7 +104,9 @@ def run(ctx):
             is_eval = lambda t: callee_of(t) is not None and callee_of(t).get("key") in roles.evaluators
             for k, b in pe_bodies.items():
                 if b.kind == "closure":
-                    skip = path_avoiding(b, is_interp)
+                    # a *success* path: error propagation (`?` residuals) does not count as the 'already decided' path
+                    is_blocked = lambda t: is_interp(t) or "from_residual" in (callee_path(t) or "")
+                    skip = path_avoiding(b, is_blocked)
                     ctx.check(skip, "K3.skippable", "%s: per-element closure has a path without parse/evaluate (%s)" % (name, cfg),
                               "every path through %s's per-element code parses or evaluates its operand: operands after the deciding one are still evaluated" % name, where=b.where(), fn=b.key, nontrivial=True)
                     m = max_calls_on_a_path(b, is_eval)
